@@ -13,7 +13,9 @@ package ethereum
 //
 // Connector is an interface over a dialled JSON-RPC connection; what the node answers is
 // arbitrary apart from the shape go-ethereum's client guarantees:
-//   - ethclient.TransactionReceipt returns ethereum.NotFound, never (nil, nil);
+//   - a receipt lookup may fail with any error, with or without a receipt value (ethclient
+//     returns no receipt with an error); success comes with a receipt (ethclient turns
+//     (nil, nil) into ethereum.NotFound);
 //   - a receipt carries a block number;
 //   - a log of a non-anonymous event has at least one topic (the Wormhole core contract
 //     declares no anonymous events) - assumed for logs of any address;
@@ -80,6 +82,9 @@ package ethereum
 //@   | && (forall k in dom(w.pending) :: w.pending[k] != nil && allocated(w.pending[k]) && w.pending[k].message != nil && allocated(w.pending[k].message)
 //@   |      && w.pending[k].height <= 4611686018427387904 && w.pending[k].message.TxHash == k.TxHash)
 
+// the node says the transaction is gone (as opposed to failing to answer)
+//@ pred notFound(err error) = err != nil && (err == rpc.ErrNoResult || errstr(err) == "not found")
+
 //@ func (w *Watcher) getBlockNumber(logger *zap.Logger, ctx context.Context) (n uint64, err error)
 //@   props C10
 //@   requires w != nil && w.ethConn != nil
@@ -144,10 +149,13 @@ package ethereum
 //@       iter-ensures [lookup-when-depth-reached] old(pLock.height) + conf(w, ev.Safe, old(pLock.message)) <= blockNumberU ==> ghostCount("receipt") == old(ghostCount("receipt")) + 1
 //@       iter-ensures [forward-if] ghostCount("receipt") == old(ghostCount("receipt")) + 1 && err == nil && tx != nil && tx.Status == 1 && tx.BlockHash == key.BlockHash ==> nsent(w.msgChan) == old(nsent(w.msgChan)) + 1
 //@       iter-ensures [dropped-only-if] !indom(w.pending, key) && nsent(w.msgChan) == old(nsent(w.msgChan)) ==>
-//@         | ghostCount("receipt") == old(ghostCount("receipt")) + 1 && (tx == nil || err != nil || tx.Status != 1 || tx.BlockHash != key.BlockHash)
-//@       iter-ensures [orphaned-failed-remined-dropped] ghostCount("receipt") == old(ghostCount("receipt")) + 1 && (tx == nil || (err == nil && (tx.Status != 1 || tx.BlockHash != key.BlockHash))) ==>
+//@         | ghostCount("receipt") == old(ghostCount("receipt")) + 1 && (notFound(err) || (err == nil && (tx == nil || tx.Status != 1 || tx.BlockHash != key.BlockHash))
+//@         |    || (err != nil && old(pLock.height) + conf(w, ev.Safe, old(pLock.message)) + w.maxWaitConfirmations <= blockNumberU))
+//@       iter-ensures [orphaned-failed-remined-dropped] ghostCount("receipt") == old(ghostCount("receipt")) + 1 && (notFound(err) || (err == nil && (tx == nil || tx.Status != 1 || tx.BlockHash != key.BlockHash))) ==>
 //@         | !indom(w.pending, key) && nsent(w.msgChan) == old(nsent(w.msgChan))
-//@       iter-ensures [transient-error-kept-within-window] ghostCount("receipt") == old(ghostCount("receipt")) + 1 && tx != nil && tx.Status == 1 && err != nil && err != rpc.ErrNoResult && errstr(err) != "not found"
+//@       iter-ensures [transient-error-kept-within-window] ghostCount("receipt") == old(ghostCount("receipt")) + 1 && err != nil && !notFound(err)
 //@         | && old(pLock.height) + conf(w, ev.Safe, old(pLock.message)) + w.maxWaitConfirmations > blockNumberU ==> indom(w.pending, key) && nsent(w.msgChan) == old(nsent(w.msgChan))
+//@       iter-ensures [abandoned-after-window] ghostCount("receipt") == old(ghostCount("receipt")) + 1 && err != nil && !notFound(err)
+//@         | && old(pLock.height) + conf(w, ev.Safe, old(pLock.message)) + w.maxWaitConfirmations <= blockNumberU ==> !indom(w.pending, key) && nsent(w.msgChan) == old(nsent(w.msgChan))
 //@       iter-ensures [other-entries-kept] mapUnchangedExcept(w.pending, key)
 //@   end-closure
